@@ -80,9 +80,21 @@ func TestObjGen(t *testing.T) {
 			newest := map[string][2]uint64{} // object -> (newest version, its size)
 			for e := 0; e < nEv; e++ {
 				on := objs[rng.Intn(2)]
-				switch k := rng.Intn(10); {
+				if tr == 2 && e <= 1 {
+					on = objs[0]
+				}
+				k := rng.Intn(10)
+				if tr == 2 && e == 0 {
+					k = 0
+				} else if tr == 2 && e == 1 {
+					k = 9
+				}
+				switch {
 				case k < 5:
 					sz := objSizes[rng.Intn(len(objSizes))]
+					if tr == 2 && e == 0 { // one object of more segments than the client's internal queues hold (1100 segments)
+						sz = 1100*8000 - 123
+					}
 					content := make([]byte, sz)
 					rng.Read(content)
 					ver := uint64(1 + rng.Intn(1000))
@@ -155,6 +167,7 @@ func TestObjGen(t *testing.T) {
 						return r
 					}
 					dropped := map[string]int{}
+					seenNonce := map[string]bool{}
 					// black-hole mode: one segment (not the first) never gets through, so the fetch must fail once; the
 					// Data of the other segments is held back and arrives only after the failure was reported
 					bh := -1
@@ -244,6 +257,14 @@ func TestObjGen(t *testing.T) {
 							key := string(b[:min(48, len(b))])
 							if pk, _, err := spec.ReadPacket(enc.NewBufferReader(b)); err == nil && pk.Interest != nil {
 								key = pk.Interest.NameV.String() // the loss budget is per Interest name: retransmissions carry fresh nonces
+							}
+							// the network is made of forwarders: an Interest repeating a (name, nonce) they have seen is a loop to them
+							if pk, _, err := spec.ReadPacket(enc.NewBufferReader(b)); err == nil && pk.Interest != nil && pk.Interest.NonceV != nil {
+								nk := fmt.Sprint(key, "#", *pk.Interest.NonceV)
+								if seenNonce[nk] {
+									continue
+								}
+								seenNonce[nk] = true
 							}
 							if rng.Intn(5) == 0 && dropped[key] < 2 { // losses stay inside the retry budget (3)
 								dropped[key]++
